@@ -14,14 +14,14 @@ import (
 )
 
 type SpecCtx struct {
-	x     *Exec
-	st    *State // current state (heap reads, fact sink)
-	fr    *Frame // frame for local-variable lookup (nil when applying a callee contract)
-	names map[string]Value
-	old   *Snapshot
-	pkg   *types.Package
-	inOld bool
-	depth int
+	x        *Exec
+	st       *State // current state (heap reads, fact sink)
+	fr       *Frame // frame for local-variable lookup (nil when applying a callee contract)
+	names    map[string]Value
+	old      *Snapshot
+	pkg      *types.Package
+	inOld    bool
+	depth    int
 	noExpand bool // keep literal-bounded quantifiers as quantifiers
 }
 
@@ -44,6 +44,16 @@ func (x *Exec) specCtx(st *State, fr *Frame) *SpecCtx {
 	}
 	for k, v := range fr.lets {
 		ctx.names[k] = v
+	}
+	if fr.contract != nil {
+		// names of "bind" clauses whose anchor this path has not passed: unconstrained values
+		for _, a := range fr.contract.Asserts {
+			if a.Bind != "" {
+				if _, ok := ctx.names[a.Bind]; !ok {
+					ctx.names[a.Bind] = x.b.Fresh("unbound."+a.Bind, SInt)
+				}
+			}
+		}
 	}
 	return ctx
 }
